@@ -25,6 +25,9 @@ def build_cases(env, sessions_per_cell, maxmsgs, big_share):
                 if mode in (1, 3):
                     psk = g.rbytes(env.rnd.choice([1, 31, 32, 33, 64, 255, 4096]))
                     pskid = g.rbytes(env.rnd.choice([1, 2, 32, 255, 1024]))
+                    if k == sessions_per_cell - 1 and (kdf + aead) % 2 == 0:
+                        # the crate accepts an empty bundle in the PSK modes; it has to round-trip too
+                        psk = pskid = "-"
                 gen.add_pair(s, g, kem, mode, info=info, psk=psk, pskid=pskid)
                 nm = [0, 1, 2][k] if k < 3 and sessions_per_cell >= 3 else env.rnd.randrange(1, maxmsgs + 1)
                 if k == 0 and sessions_per_cell < 3:
